@@ -18,6 +18,7 @@ pub const PROBES: &[&str] = &[
     "window_grew_by_more_than_1",
     "insert_duplicate",
     "insert_via_year_for_mut",
+    "query_on_another_calendar",
     "insert_negative_year",
     "first_after_same_month",
     "first_after_later_month",
@@ -492,6 +493,22 @@ fn step(cx: &mut Ctx, op: &Op) -> R {
             cx.fp.tag(eq as u8);
             if eq != (*sm == cx.w.model) {
                 return fail("equality_not_set_equality", format!("cal == snapshot is {eq}, model sets equal is {}", *sm == cx.w.model));
+            }
+            Ok(())
+        }
+        Op::SnapQuery(i, d) => {
+            let Some(date) = d.date() else { return Ok(()) };
+            cx.fp.tag(15);
+            if cx.w.snaps.is_empty() {
+                return Ok(());
+            }
+            let (sc, sm) = &cx.w.snaps[*i as usize % cx.w.snaps.len()];
+            let (c, fa, n) = (sc.contains(date), sc.first_after(date), sc.count());
+            cx.fp.tag(c as u8);
+            log_date(&mut cx.fp, fa);
+            cx.probes.hit("query_on_another_calendar");
+            if c != sm.contains(&date) || fa != model_first_after(sm, date) || n as usize != sm.len() {
+                return fail("snapshot_query_mismatch", format!("snapshot #{i}: contains({date}) = {c}, first_after = {fa:?}, count = {n}; its model says {}, {:?}, {}", sm.contains(&date), model_first_after(sm, date), sm.len()));
             }
             Ok(())
         }
